@@ -8,7 +8,7 @@
     of the live Griffe tree  vs  as_json(full=True) from that cwd -- documents and exceptions; membership of every real
     document in the encoder grammar G_enc; path functions on API-built modules; construction-site models vs the loaders
 direct: a loaded tree whose full dump raises, or whose dump jsonschema rejects (whole document or any node)  =>  violation,
-        unless the extracted model of the unrepaired code fails the same way on that very input (known: C09-F6, F7, F8).
+        unless the extracted model of the unrepaired code fails the same way on that very input (known: C09-F7).
 """
 from __future__ import annotations
 
@@ -33,7 +33,8 @@ LEVEL_TEXT = ("Theorems (27, closed): a generic inclusion checker between shape 
               "cwd and every tree whose module files lie below the package's directories the dump raises exactly in the F6 situation (else TypeError for an "
               "unserialisable default, else a document), and every document produced validates; `loadable` is derived from a model of the loaders' "
               "construction sites (decorator line numbers from ast nodes, parameter kinds per ast.arguments bucket / inspect kind, section kinds per class, "
-              "file paths from the finder): src_ok s -> ploadable (build s); refutation witnesses for the known findings F6, F7, F8. "
+              "file paths from the finder; inspected defaults always strings): src_ok s -> ploadable (build s); refutation witness for the known finding F7; "
+              "the witnesses of the repaired findings F1..F6, F8 validate. "
               "Ties on every run: validator model vs jsonschema (real, per-node, mutated documents); dump(model) vs as_json(full=True) -- documents and "
               "exceptions -- on generated regular / multi-portion namespace / stubs-package / inspector pass-through layouts, static and dynamic, with and "
               "without alias resolution, every parser, from several working directories; path functions vs the properties on API-built modules; the "
@@ -55,7 +56,7 @@ RULE = ("generated layouts under the scratch directory: regular packages (a fixe
         "kind); native namespace packages over 1..3 search paths (the first two of a run have 2 and 3 portions) with modules and regular subpackages in "
         "every portion, a nested namespace over a random non-empty subset of the portions and a second level, pkg_resources-style portions, imports across "
         "portions; stubs-only packages on the same / another search path; inspector pass-through modules (defaults whose __name__ is an int / list / None / "
-        "object, annotation objects with unparsable / parsable repr); each loaded statically and dynamically, with/without alias resolution, parser "
+        "object, annotation objects with unparsable / parsable repr: all must dump and validate); each loaded statically and dynamically, with/without alias resolution, parser "
         "none/google/numpy/sphinx, and dumped from: above everything, a search path, a namespace directory, the package directory, an unrelated "
         "directory, the file-system root; 1.5k/20k random (package path, module path, cwd) triples on API-built modules for the path functions; one "
         "builder case per function; one case per distinct node document and per whole document; mutated node documents for the validator tie; depth "
@@ -161,6 +162,8 @@ def a_fval(v):
         return ["n"]
     if isinstance(v, bool):
         return ["b", 1 if v else 0]
+    if isinstance(v, int):
+        return ["i", v]
     if isinstance(v, enum.Enum) and isinstance(v, str):
         return ["s", v.value]
     if isinstance(v, str):
@@ -181,7 +184,7 @@ def a_val(v):
         return ["str", v]
     if isinstance(v, griffe.Expr):
         return ["expr", a_fval(v)]
-    # what only dynamic inspection lets through (C09-F8): another Python value; json either has a rule for it or not
+    # outside `str | Expr | None` (the inspector let such values through until fixes 4debb62 / 5db8f3a): json has a rule for it or not
     try:
         return ["raw", jx(json.loads(json.dumps(v)))]
     except (TypeError, ValueError):
@@ -810,34 +813,13 @@ def load_and_dump(root: Path, pkg: str, mode: str, parser, resolve: bool, search
     return top, out[1]
 
 
-# which Python exception each error of the model's `dump` stands for, and the known finding it is
+# which Python exception each error of the model's `dump` stands for, and the known finding it is (if any)
 MODEL_ERRORS = {
-    "relative_filepath": ("C09-F6", lambda name, msg: name == "ValueError" and msg.startswith("No directory in")),
-    "relative_package_filepath": ("C09-F7", lambda name, msg: name == "ValueError" and not msg.startswith("No directory in")),
+    "relative_filepath": (None, lambda name, msg: name == "IndexError"),
+    "relative_package_filepath": ("C09-F7", lambda name, msg: name == "ValueError"),
     "builtin": (None, lambda name, msg: name == "BuiltinModuleError"),
-    "not_serializable": ("C09-F8", lambda name, msg: name == "TypeError" and "is not JSON serializable" in msg),
+    "not_serializable": (None, lambda name, msg: name == "TypeError" and "is not JSON serializable" in msg),
 }
-
-
-def raw_defaults_explain(tree, leaves) -> bool:
-    """C09-F8 classifier: every jsonschema error sits at .../parameters/<i>/default of a function whose model tree has a raw
-    (non-string, JSON-serialisable) value there -- the model of the unchanged inspector emits that very value"""
-    if not leaves:
-        return False
-    for leaf in leaves:
-        path = list(leaf.absolute_path)
-        node = tree
-        while len(path) >= 2 and path[0] == "members" and node[0] == "pobj":
-            nxt = [m for n, m in node[9] if n == path[1]]
-            if not nxt:
-                return False
-            node, path = nxt[0], path[2:]
-        if node[0] != "pobj" or node[1][0] != "function" or len(path) < 3 or path[0] != "parameters" or path[2] != "default":
-            return False
-        params = node[1][2]
-        if not (isinstance(path[1], int) and path[1] < len(params) and params[path[1]][3][0] == "raw"):
-            return False
-    return True
 
 
 # ---------------------------------------------------------------------------------------------- the checks
@@ -891,8 +873,8 @@ def check_outcome(st: State, top, tree, outcome, cwd, label: dict, nodes: bool =
     if res == ["bad-input"] or res[0] not in ("ok", "err"):
         ctx.tie_failure("harness", "model rejected the harness encoding of a tree", {"result": res if res == ["bad-input"] else res[:1]}, label)
         return
-    loadable, placed, f6 = res[-3:]
-    ctx.observe("model_dump", f"{res[0]}{':' + res[1] if res[0] == 'err' else ''} placed={placed} f6_gap={f6}")
+    loadable, placed = res[-2:]
+    ctx.observe("model_dump", f"{res[0]}{':' + res[1] if res[0] == 'err' else ''} placed={placed}")
     if outcome[0] == "raised":
         _, ename, msg = outcome
         detail = {"full_dump_raised": f"{ename}: {msg}", "model": res[:2] if res[0] == "err" else "document"}
@@ -927,15 +909,10 @@ def check_outcome(st: State, top, tree, outcome, cwd, label: dict, nodes: bool =
     if mv != (1 if jv else 0):
         ctx.tie_failure("oracle", "validates(model) vs jsonschema on a whole document", {"model": mv, "jsonschema": jv}, label)
     mdoc = unjx(enc_json)
-    # C09-F8 (known): the inspector let a non-string default through; the model emits the same invalid document, and the tree is
-    # -- consistently -- outside the domain of the theorems and of the grammar
-    f8_doc = (not jv) and mv == 0 and mdoc == canon(doc) and raw_defaults_explain(tree, st.auth.leaves(doc))
-    if in_full != 1 and not f8_doc:
+    if in_full != 1:
         ctx.tie_failure("correspondence", "real full dump is not generated by the encoder grammar G_enc", {"member": in_full}, label)
-    if loadable != 1 and not f8_doc:
+    if loadable != 1:
         ctx.tie_failure("correspondence", "a tree loaded from disk is outside the theorems' domain (loadable = false)", {}, label)
-    if (in_full == 1 or loadable == 1) and f8_doc:
-        ctx.tie_failure("correspondence", "the model puts an invalid document inside the grammar / the theorems' domain", {"member": in_full, "loadable": loadable}, label)
     if mdoc != canon(doc):
         ctx.tie_failure("correspondence", "dump(model) vs as_json(full=True) on a whole document",
                         {"first_difference": first_diff(mdoc, canon(doc))}, label)
@@ -949,8 +926,7 @@ def check_outcome(st: State, top, tree, outcome, cwd, label: dict, nodes: bool =
     if not nodes:
         if not jv:
             leaves = st.auth.leaves(doc)
-            ctx.property_failure({**label, "files": files}, {"jsonschema_errors": [leaf_repr(lf) for lf in leaves][:5] or "rejected without error leaves"},
-                                 finding="C09-F8" if (raw_defaults_explain(tree, leaves) and mdoc == canon(doc) and mv == 0) else None)
+            ctx.property_failure({**label, "files": files}, {"jsonschema_errors": [leaf_repr(lf) for lf in leaves][:5] or "rejected without error leaves"}, finding=None)
         return
     # node by node
     todo = []
@@ -987,12 +963,7 @@ def check_outcome(st: State, top, tree, outcome, cwd, label: dict, nodes: bool =
                 st.mutation_pool.append(local)
             continue
         leaves = st.auth.leaves(local)
-        sub = tree
-        for name in path:
-            sub = [m for n, m in sub[9] if n == name][0]
-        known = raw_defaults_explain(sub, leaves) and mdoc == canon(doc) and mv == 0
-        ctx.property_failure({**case, "files": files}, {"jsonschema_errors": [leaf_repr(lf) for lf in leaves] or "rejected without error leaves"},
-                             finding="C09-F8" if known else None)
+        ctx.property_failure({**case, "files": files}, {"jsonschema_errors": [leaf_repr(lf) for lf in leaves] or "rejected without error leaves"}, finding=None)
 
 
 # --- the loaders' construction sites (Model/C09_load.v) against the loaders: parameters and decorators of every function
@@ -1065,8 +1036,8 @@ def sig_param(p, griffe_param):
     d = p.default
     if d is inspect.Parameter.empty:
         dd = ["empty"]
-    elif hasattr(d, "__name__"):
-        dd = ["named", a_val(d.__name__)]
+    elif isinstance(getattr(d, "__name__", None), str):
+        dd = ["named", d.__name__]
     else:
         dd = ["other", repr(d)]
     return [p.name, p.kind.name, a, dd]
@@ -1352,19 +1323,13 @@ def replay_corpus(st: State, root: Path):
 
 
 def witness_layouts(root: Path):
-    """the witnesses of the known findings, as layouts + the cwd to dump from"""
+    """the witnesses of the known findings, as layouts + the cwd to dump from + the loading mode"""
     pid = os.getpid()
-    ns = f"c09ns_{pid}"
-    f6 = {"package": ns, "variant": "witness-F6", "search_paths": ["."], "files": {f"{ns}/inner/m.py": "q = 1\n"}, "stubs": False,
-          "namespace_dirs": [ns]}
     sp = f"c09st_{pid}"
     f7 = {"package": sp, "variant": "witness-F7", "search_paths": [f"{sp}_a", f"{sp}_b"], "stubs": True, "namespace_dirs": [],
           "files": {f"{sp}_a/{sp}/__init__.py": "x = 1\n", f"{sp}_b/{sp}-stubs/__init__.pyi": "x: int\n",
                     f"{sp}_b/{sp}-stubs/only.pyi": "def g() -> int: ...\n"}}
-    f8p = f"c09f8_{pid}"
-    f8 = {"package": f8p, "variant": "witness-F8", "search_paths": ["."], "stubs": False, "namespace_dirs": [],
-          "files": {f"{f8p}/__init__.py": "class K:\n    __name__ = 3\ndef f(x=K()): ...\n"}}
-    return {"C09-F6": (f6, "elsewhere", "static"), "C09-F7": (f7, ".", "static"), "C09-F8": (f8, ".", "dynamic")}
+    return {"C09-F7": (f7, ".", "static")}
 
 
 def replay_known(st: State, root: Path):
